@@ -123,6 +123,29 @@ func main() {
 			}
 		}
 		return
+	case "extcalls":
+		// external (non-module) callees of the module functions reachable from the C16 roots
+		li := BuildLocks(c)
+		rr := NewReport("C16", *tier, c)
+		reach, _ := allReach(li, panicRootFns(c, rr, "C16.R1"))
+		cnt := map[string]int{}
+		for f := range reach {
+			eachCall(f, func(call ssa.CallInstruction, n string) {
+				if n == "" || strings.HasPrefix(n, "reservoir/") || strings.HasPrefix(n, "(reservoir/") || strings.HasPrefix(n, "(*reservoir/") {
+					return
+				}
+				cnt[n]++
+			})
+		}
+		var ks []string
+		for k := range cnt {
+			ks = append(ks, k)
+		}
+		sort.Strings(ks)
+		for _, k := range ks {
+			fmt.Printf("%4d %s\n", cnt[k], k)
+		}
+		return
 	case "fns":
 		for _, fn := range c.Concrete() {
 			fmt.Println(fnKey(fn), "\t", fn.String())
